@@ -337,3 +337,36 @@ func vhBadAmongGood() {
 	vAssert(err != nil, "an extension that cannot be built was dropped silently: a certificate was generated")
 	vAssert(err == nil || crt == nil, "an error was returned together with a certificate")
 }
+
+// vhHostileNames: C20 for the `name` strings of general names, which the
+// schema leaves free. Address-like texts that are not dotted quads (IPv6
+// literals, IPv4-mapped IPv6, too few / too many / empty / signed / hex /
+// over-long octets, CIDR suffixes, blanks) as `ip` name in
+// subjectAlternativeName and as admission authority, and odd texts for the
+// other kinds: building and signing return an error or a certificate, never a
+// panic. A well-formed dotted quad among them must be accepted.
+func vhHostileNames() {
+	vClockFixed(1709640000)
+	ips := []string{"::1", "2001:db8::1", "fe80::1%eth0", "::ffff:1.2.3.4", "1.2.3", "1.2.3.4.5", "", ".", "...", "1..2.3", "256.1.1.1", "-1.2.3.4",
+		"0x1.2.3.4", "1.2.3.4/24", " 1.2.3.4", "1.2.3.4 ", "a.b.c.d", "1.2.3.99999999999999999999", "+1.2.3.4", "010.000.000.007", "10.0.0.7"}
+	k := vChoose("ip", len(ips))
+	cfg := CertConfig{Subject: "CN=x"}
+	vSetNum(&cfg.SerialNumber, 5)
+	switch vChoose("place", 3) {
+	case 0:
+		cfg.Extensions = []AnyExtension{{SubjectAltName: &SubjectAltName{Content: []SubjAltNameComponent{{Type: "dns", Name: "a.example"}, {Type: "ip", Name: ips[k]}}}}}
+	case 1:
+		cfg.Extensions = []AnyExtension{{AdmissionExtension: &AdmissionExtension{Content: &Admission{AdmissionAuthority: GeneralName{Type: "ip", Name: ips[k]},
+			Admissions: []SingleAdmission{{ProfessionInfos: []ProfessionInfo{{ProfessionItems: []string{"it"}}}}}}}}}
+	default:
+		cfg.Extensions = []AnyExtension{{AdmissionExtension: &AdmissionExtension{Content: &Admission{
+			Admissions: []SingleAdmission{{AdmissionAuthority: GeneralName{Type: "ip", Name: ips[k]}, ProfessionInfos: []ProfessionInfo{{ProfessionItems: []string{"it"}}}}}}}}}
+	}
+	_, _, err := vGenerate(cfg)
+	if err != nil {
+		vReach("error")
+		vAssert(ips[k] != "10.0.0.7", "a well-formed dotted quad was rejected")
+	} else {
+		vReach("generated")
+	}
+}
